@@ -8,8 +8,9 @@ import (
 	"gopkg.in/robfig/cron.v2"
 )
 
-// zeroStepRe matches a crontab field with a zero step ("*/0", "1-5/00").
-var zeroStepRe = regexp.MustCompile(`/0+([^0-9]|$)`)
+// zeroStepRe matches a crontab field with a zero step ("*/0", "1-5/00", also
+// with a sign: "*/+0", "*/-0" - the step is parsed with strconv.Atoi).
+var zeroStepRe = regexp.MustCompile(`/[+-]?0+([^0-9]|$)`)
 
 // ParseCrontab checks crontab syntax. A zero step is rejected here because
 // cron.Parse never returns for it (endless loop in robfig/cron.v2).
